@@ -56,11 +56,17 @@ class Short(Exception):
 
 
 class Rd:
-    def __init__(self, data, pos=0):
+    """`lenient=True`: a length field that promises more bytes than are left yields the bytes that are
+    left (framing damage does not turn a cryptographically valid value into an invalid one)."""
+
+    def __init__(self, data, pos=0, lenient=False):
         self.d = bytes(data)
         self.p = pos
+        self.lenient = lenient
 
-    def take(self, n):
+    def take(self, n, clamp=False):
+        if clamp and self.lenient and n >= 0 and self.p + n > len(self.d):
+            n = len(self.d) - self.p
         if n < 0 or self.p + n > len(self.d):
             raise Short()
         b = self.d[self.p:self.p + n]
@@ -77,7 +83,7 @@ class Rd:
         return struct.unpack(">I", self.take(4))[0]
 
     def string(self):
-        return self.take(self.u32())
+        return self.take(self.u32(), clamp=True)
 
     def mpint(self):
         return int.from_bytes(self.string(), "big", signed=True)
@@ -95,25 +101,26 @@ def session_blob(sid, user, service, alg, keyblob):
 
 
 def verify_sig(keyblob, sigfield, data):
-    """True iff `sigfield` (string format-name, string blob) is a valid signature by the public key
-    encoded in `keyblob` over `data`.  cryptography only; any parse problem -> False."""
+    """True iff `sigfield` (string format-name, string blob) carries a signature value that verifies under
+    the public key encoded in `keyblob` over `data`.  cryptography only.  Validity means cryptographic
+    validity of the values carried: framing is read leniently (over-long length fields are clamped to the
+    bytes present, trailing bytes are ignored) so that a valid (r, s) / RSA / Ed25519 value in a damaged
+    envelope still counts as the valid proof it is."""
     from cryptography.exceptions import InvalidSignature
     from cryptography.hazmat.primitives import hashes
     from cryptography.hazmat.primitives.asymmetric import ec, ed25519, padding, rsa
     from cryptography.hazmat.primitives.asymmetric.utils import encode_dss_signature
 
     try:
-        k = Rd(keyblob)
+        k = Rd(keyblob, lenient=True)
         ktype = k.string()
-        s = Rd(sigfield)
+        s = Rd(sigfield, lenient=True)
         sname = s.string()
         sblob = s.string()
-        if not s.done():
-            return False
         if ktype == b"ssh-rsa":
             e = k.mpint()
             n = k.mpint()
-            if not k.done() or e <= 0 or n <= 0:
+            if e <= 0 or n <= 0:
                 return False
             h = {b"ssh-rsa": hashes.SHA1, b"rsa-sha2-256": hashes.SHA256, b"rsa-sha2-512": hashes.SHA512}.get(sname)
             if h is None:
@@ -124,21 +131,21 @@ def verify_sig(keyblob, sigfield, data):
         if ktype.startswith(b"ecdsa-sha2-nistp"):
             curve_name = k.string()
             point = k.string()
-            if not k.done() or sname != ktype or ktype != b"ecdsa-sha2-" + curve_name:
+            if sname != ktype or ktype != b"ecdsa-sha2-" + curve_name:
                 return False
             curve, h = {b"nistp256": (ec.SECP256R1, hashes.SHA256), b"nistp384": (ec.SECP384R1, hashes.SHA384),
                         b"nistp521": (ec.SECP521R1, hashes.SHA512)}[curve_name]
             pub = ec.EllipticCurvePublicKey.from_encoded_point(curve(), point)
-            rs = Rd(sblob)
+            rs = Rd(sblob, lenient=True)
             r = rs.mpint()
             sv = rs.mpint()
-            if not rs.done() or r <= 0 or sv <= 0:
+            if r <= 0 or sv <= 0:
                 return False
             pub.verify(encode_dss_signature(r, sv), data, ec.ECDSA(h()))
             return True
         if ktype == b"ssh-ed25519":
             raw = k.string()
-            if not k.done() or sname != b"ssh-ed25519" or len(raw) != 32 or len(sblob) != 64:
+            if sname != b"ssh-ed25519" or len(raw) != 32 or len(sblob) != 64:
                 return False
             ed25519.Ed25519PublicKey.from_public_bytes(raw).verify(sblob, data)
             return True
